@@ -117,4 +117,100 @@ theorem recompile_first (ip : Bool) (ss : List Stmt) (sl : Slots) (c : Nat) (h :
   simp only
   rw [a1]
 
+/-! as is: programs without a loop exit under a `while` are not touched by the in-place labelling -/
+mutual
+  theorem expandA_exitFree : ∀ (cb : Option (Lbl × Lbl)) (ss : List Stmt) (sl : Slots) (c : Nat), Unlabelled sl →
+      exitFree cb.isSome ss = true →
+      (expandA true cb ss sl c).1 = expand cb ss c ∧ Unlabelled (expandA true cb ss sl c).2.2 ∧
+      Unlabelled (expandA true cb ss sl c).2.1
+    | cb, [], sl, c, h, _ => by
+      unfold expandA expand
+      exact ⟨rfl, h, unlabelled_nil⟩
+    | cb, s :: r, sl, c, h, he => by
+      unfold exitFree at he
+      simp only [Bool.and_eq_true] at he
+      obtain ⟨a1, a2, a3⟩ := expandStmtA_exitFree cb s sl c h he.1
+      obtain ⟨b1, b2, b3⟩ := expandA_exitFree cb r _ (expandStmtA true cb s sl c).1.2 a2 he.2
+      unfold expandA expand
+      simp only
+      refine ⟨?_, b2, unlabelled_append _ _ a3 b3⟩
+      rw [b1, a1]
+  theorem expandStmtA_exitFree : ∀ (cb : Option (Lbl × Lbl)) (s : Stmt) (sl : Slots) (c : Nat), Unlabelled sl →
+      exitFreeStmt cb.isSome s = true →
+      (expandStmtA true cb s sl c).1 = expandStmt cb s c ∧ Unlabelled (expandStmtA true cb s sl c).2.2 ∧
+      Unlabelled (expandStmtA true cb s sl c).2.1
+    | cb, .brk, sl, c, h, he => by
+      unfold exitFreeStmt at he
+      cases cb with
+      | some x => simp at he
+      | none =>
+        unfold expandStmtA expandStmt
+        simp only [headSlot_unlabelled sl h, slotOut, Option.map_none]
+        refine ⟨by first | trivial | rfl, unlabelled_tail sl h, ?_⟩
+        intro o ho; simpa using ho
+    | cb, .cont, sl, c, h, he => by
+      unfold exitFreeStmt at he
+      cases cb with
+      | some x => simp at he
+      | none =>
+        unfold expandStmtA expandStmt
+        simp only [headSlot_unlabelled sl h, slotOut, Option.map_none]
+        refine ⟨by first | trivial | rfl, unlabelled_tail sl h, ?_⟩
+        intro o ho; simpa using ho
+    | cb, .whileS b, sl, c, h, he => by
+      unfold exitFreeStmt at he
+      obtain ⟨a1, a2, a3⟩ := expandA_exitFree (some (("_while_begin_", c), ("_while_end_", c))) b sl (c + 1) h he
+      unfold expandStmtA expandStmt
+      simp only
+      refine ⟨?_, a2, a3⟩
+      rw [a1]
+    | cb, .ifS t f, sl, c, h, he => by
+      unfold exitFreeStmt at he
+      simp only [Bool.and_eq_true] at he
+      obtain ⟨a1, a2, a3⟩ := expandA_exitFree cb t sl (c + 2) h he.1
+      obtain ⟨b1, b2, b3⟩ := expandA_exitFree cb f _ (expandA true cb t sl (c + 2)).1.2 a2 he.2
+      unfold expandStmtA expandStmt
+      by_cases hf : f.isEmpty = true
+      · simp only [hf, if_true]
+        refine ⟨?_, a2, a3⟩
+        rw [a1]
+      · have hf' : f.isEmpty = false := by simpa using hf
+        simp only [hf', Bool.false_eq_true, if_false]
+        refine ⟨?_, b2, unlabelled_append _ _ a3 b3⟩
+        rw [b1, a1]
+    | cb, .send, sl, c, h, _ => by unfold expandStmtA; exact ⟨rfl, h, unlabelled_nil⟩
+    | cb, .matchEv, sl, c, h, _ => by unfold expandStmtA; exact ⟨rfl, h, unlabelled_nil⟩
+    | cb, .assign, sl, c, h, _ => by unfold expandStmtA; exact ⟨rfl, h, unlabelled_nil⟩
+    | cb, .other k, sl, c, h, _ => by unfold expandStmtA; exact ⟨rfl, h, unlabelled_nil⟩
+    | cb, .ret, sl, c, h, _ => by unfold expandStmtA; exact ⟨rfl, h, unlabelled_nil⟩
+    | cb, .abort, sl, c, h, _ => by unfold expandStmtA; exact ⟨rfl, h, unlabelled_nil⟩
+    | cb, .matchG d, sl, c, h, _ => by unfold expandStmtA; exact ⟨rfl, h, unlabelled_nil⟩
+    | cb, .sendG d, sl, c, h, _ => by unfold expandStmtA; exact ⟨rfl, h, unlabelled_nil⟩
+    | cb, .startS d, sl, c, h, _ => by unfold expandStmtA; exact ⟨rfl, h, unlabelled_nil⟩
+    | cb, .awaitOne k rv, sl, c, h, _ => by unfold expandStmtA; exact ⟨rfl, h, unlabelled_nil⟩
+    | cb, .awaitG d, sl, c, h, _ => by unfold expandStmtA; exact ⟨rfl, h, unlabelled_nil⟩
+    | cb, .activateS n, sl, c, h, _ => by unfold expandStmtA; exact ⟨rfl, h, unlabelled_nil⟩
+    | cb, .deactivateS n, sl, c, h, _ => by unfold expandStmtA; exact ⟨rfl, h, unlabelled_nil⟩
+    | cb, .nld, sl, c, h, _ => by unfold expandStmtA; exact ⟨rfl, h, unlabelled_nil⟩
+    | cb, .whenS specs thens els hasElse, sl, c, h, _ => by unfold expandStmtA; exact ⟨rfl, h, unlabelled_nil⟩
+end
+
+theorem recompile_as_is_exitFree_closed (ss : List Stmt) (hwf : wfList ss = true) (he : exitFree false ss = true) :
+    ∀ (k : Nat) (sl : Slots) (c : Nat), Unlabelled sl → Closed (recompile true ss k sl c).1 := by
+  intro k
+  induction k with
+  | zero =>
+    intro sl c h
+    obtain ⟨a1, _, _⟩ := expandA_exitFree none ss sl c h he
+    unfold recompile
+    simp only
+    rw [a1]
+    exact closed_of_inv _ c (expand_inv none ss c hwf)
+  | succ k ih =>
+    intro sl c h
+    obtain ⟨_, a2, a3⟩ := expandA_exitFree none ss sl c h he
+    unfold recompile
+    simp only
+    exact ih _ _ (unlabelled_append _ _ a3 a2)
+
 end NemoVerif.Expand
